@@ -2,6 +2,7 @@ import Litep2pVerif.Proofs.Manager.LedgerStep
 import Litep2pVerif.Proofs.Node.Wiring
 import Litep2pVerif.Proofs.Manager.Proto
 import Litep2pVerif.Proofs.Manager.Facade
+import Litep2pVerif.Proofs.Tcp.Poll
 /-!
 # C05 — Every dial attempt ends in exactly one outcome and never wedges the peer
 
@@ -592,3 +593,55 @@ end Litep2pVerif.Props.C05.Wiring
 
 #print axioms Litep2pVerif.Props.C05.Wiring.known_and_listen_addresses_installed
 #print axioms Litep2pVerif.Props.C05.Wiring.registration_order_irrelevant
+
+/-! ## The transport's event stream (`impl Stream for TcpTransport`, coverage round `tcp3`)
+
+The manager's theorems above assume that the transport reports one terminal event per obligation. For the TCP
+transport that rests on `poll_next`: the outcome of a dial is a READY result sitting in `pending_connections` /
+`pending_raw_connections`, next to results that yield no event (failed inbound negotiations, results of cancelled
+`open`s). Model: `Model/Tcp/Poll.lean` (`pollNext` = one `poll_next`: drain until an event or nothing ready;
+`none` = `Poll::Pending`), lemmas `Proofs/Tcp/Poll.lean`. -/
+namespace Litep2pVerif.Props.C05.TcpPoll
+open Litep2pVerif.Tcp.Poll
+
+/-- **The waker contract of `poll_next`.** When `poll_next` returns `Pending`, no ready result is left in the listener,
+`pending_raw_connections` or `pending_connections` — in particular no reportable one (`due t = []`): everything still
+queued is a future that is not ready and therefore has its wake-up registered. (A ready result left behind would have
+no wake-up: the dial it concludes would stay silent until something unrelated polls the transport.) -/
+theorem poll_next_reports_every_ready_result (t t' : T) (h : pollNext t = (none, t')) :
+    t'.accepted = 0 ∧ t'.raw = [] ∧ t'.conns = [] ∧ due t = [] :=
+  pollNext_pending t t' h
+
+/-- Non-vacuity: a failed inbound negotiation (id 7, unknown to `pending_dials`) is swallowed and `Pending` is returned
+with empty queues; and the statement is not a tautology of the shape of the model — the variant that polls
+`pending_connections` once per `poll_next` (`if let` instead of `while let`) returns `Pending` with the failure of
+dial 0 still queued. -/
+example : pollNext { conns := [.err 7], dials := [0] } = (none, { conns := [], dials := [0] }) := by decide
+example : (pollConnsOnce [.err 7, .err 0] [0] []).1 = none ∧ (pollConnsOnce [.err 7, .err 0] [0] []).2.1 = [.err 0] := by
+  decide
+
+/-- **Every ready result is reported.** An executor that polls again after every item and stops at `Pending` collects
+exactly the events the queued results stand for (`due`: one `PendingInboundConnection` per accepted socket, one
+`ConnectionOpened`/`OpenFailure` per live `open`, one `ConnectionEstablished` per negotiated connection, one
+`DialFailure` per failed dial — in every order and mixture with results that yield no event) and leaves nothing
+queued — without any wake-up from outside. -/
+theorem executor_collects_every_due_event (n : Nat) (t : T) (h : size t < n) :
+    (drain n t).1 = due t ∧ size (drain n t).2 = 0 :=
+  drain_collects n t h
+
+example : (drain 9 { conns := [.err 7, .err 8, .err 0, .ok 3], dials := [0], raw := [.canceled 5, .failed 4, .connected 6],
+                     handles := [(5, true), (4, false), (6, false)], accepted := 1 }).1
+    = [.pendingInbound 0, .openFailure 4, .opened 6, .dialFailure 0, .established 3] := by decide
+
+/-- A failed dial that is queued is reported by the very next `poll_next`s, whatever is queued ahead of it. -/
+theorem queued_dial_failure_is_due (t : T) (id : Id) (pre post : List ConnRes) (hc : t.conns = pre ++ .err id :: post)
+    (hd : id ∈ t.dials) (hpre : ∀ r ∈ pre, r ≠ .ok id ∧ r ≠ .err id) : Ev.dialFailure id ∈ due t :=
+  mem_due_of_queued_dial_failure t id pre post hc hd hpre
+
+example : Ev.dialFailure 0 ∈ due { conns := [.err 7, .ok 8, .err 0], dials := [0] } := by decide
+
+end Litep2pVerif.Props.C05.TcpPoll
+
+#print axioms Litep2pVerif.Props.C05.TcpPoll.poll_next_reports_every_ready_result
+#print axioms Litep2pVerif.Props.C05.TcpPoll.executor_collects_every_due_event
+#print axioms Litep2pVerif.Props.C05.TcpPoll.queued_dial_failure_is_due
